@@ -85,6 +85,8 @@ def check(ctx: Ctx):
     try:
         dens = e.density_field()
     except AnalysisError as err:
+        if getattr(err, 'undecided', False):
+            raise
         lp = e.level_loop(e.forward)
         ctx.fail('R20.2', e.forward.short, e.forward.loc(lp),
                  f'the level loop of the forward descent iterates {ast.unparse(lp.iter)}: it is not bounded by an '
